@@ -144,13 +144,19 @@ def mk_type(t):
 
 
 def mk_fn_hugr(i, o, reqs=()):
-    """A DFG-rooted HUGR with the given signature and Input/Output children."""
+    """A valid DFG-rooted HUGR with the given signature: Input -> one opaque op -> Output."""
     import hugr.ops as ops
+    import hugr.tys as tys
     from hugr.hugr import Hugr
 
     h = Hugr(ops.DFG(mk_row(i), mk_row(o), list(reqs)))
-    h.add_node(ops.Input(mk_row(i)), h.root, num_outs=len(i))
-    h.add_node(ops.Output(mk_row(o)), h.root)
+    inp = h.add_node(ops.Input(mk_row(i)), h.root, num_outs=len(i))
+    out = h.add_node(ops.Output(mk_row(o)), h.root)
+    body = h.add_node(ops.Custom("body", tys.FunctionType(mk_row(i), mk_row(o)), extension="gen.ext"), h.root, num_outs=len(o))
+    for k in range(len(i)):
+        h.add_link(inp.out(k), body.inp(k))
+    for k in range(len(o)):
+        h.add_link(body.out(k), out.inp(k))
     return h
 
 
